@@ -97,60 +97,22 @@ theorem c04_tof_closed_form (pt : Int) (c : TCall) (r : List TCall)
 
 /-! ## TP -/
 
-/-- **TP, pub struct, every trace and prefix, arbitrary PT and dt — partial**: on traces in which no
-rising edge of IN arrives while a pulse is running, the output is the IEC non-retriggerable pulse
-(`Q` from the accepted rising edge until the accumulated time reaches PT, `ET` that time). -/
-theorem c04_tp_trace_partial (tr : List TCall) (c : TCall)
-    (hg : Spec.retriggeredT (tr ++ [c]) = false) :
+/-- **TP, pub struct, every trace and prefix, arbitrary PT and dt.**  The output is the IEC
+non-retriggerable pulse: `Q` from the rising edge of IN accepted while no pulse was running until the
+accumulated time reaches PT, `ET` that time; IN is ignored while the pulse runs. -/
+theorem c04_tp_trace (tr : List TCall) (c : TCall) :
     (tpStep (tpRun tr) c).2 = Spec.tp (tr ++ [c]) := by
-  simp only [Spec.retriggeredT, List.reverse_append, List.reverse_cons, List.reverse_nil,
-    List.nil_append, List.singleton_append] at hg
-  obtain ⟨g1, g2⟩ := retriggered_cons c tr.reverse hg
-  have h := (tpStep_spec (tpRun tr) tr.reverse c (tpRun_inv tr g2) g1).2
+  have h := (tpStep_spec (tpRun tr) tr.reverse c (tpRun_inv tr)).2
   simpa [Spec.tp] using h
 
-/-- **TP, runtime route — partial**, under the same guard. -/
-theorem c04_tp_exec_trace_partial (tr : List XCall) (c : XCall)
-    (hg : Spec.retriggeredX (tr ++ [c]) = false) :
+theorem c04_tp_outputs (tr : List TCall) :
+    outputs tpStep {} tr = (prefixes tr).map Spec.tp :=
+  outputs_eq_map_prefixes tpStep tr {} Spec.tp (fun pre c => c04_tp_trace pre c)
+
+/-- **TP, runtime route (`exec_tp`), every trace and prefix.** -/
+theorem c04_tp_exec_trace (tr : List XCall) (c : XCall) :
     (execTp (execTpRun tr) c).2 = Spec.tpX (tr ++ [c]) := by
-  simp only [Spec.retriggeredX, Spec.tpX, List.reverse_append, List.reverse_cons, List.reverse_nil,
-    List.nil_append, List.singleton_append] at hg ⊢
-  exact (execTp_spec (execTpRun tr) tr.reverse c
-    (execTpRun_inv tr (retriggered_toT_tail c tr.reverse hg)) hg).2
-
-/-- **The code violates "TP emits one non-retriggerable pulse of accumulated length PT".**  Witness
-(PT = 10): IN rises at call 1 (pulse starts), falls at call 2 and rises again at call 3 after 8 ns;
-at call 4 the pulse has accumulated 12 ≥ PT, so IEC demands `Q = FALSE`, but `Tp::step` restarted ET
-at call 3 and answers `Q = TRUE, ET = 8`; the pulse lasts 16 ns instead of 10. -/
-theorem c04_tp_counterexample :
-    Spec.retriggeredT tpWitness = true ∧
-      outputs tpStep {} tpWitness ≠ (prefixes tpWitness).map Spec.tp ∧
-      (tpStep (tpRun (tpWitness.take 3)) ⟨true, 10, 4⟩).2 = { q := true, et := 8 } ∧
-      Spec.tp (tpWitness.take 4) = { q := false, et := 0 } := by
-  decide
-
-/-- The same witness through the runtime route (`exec_tp`). -/
-theorem c04_tp_exec_counterexample :
-    Spec.retriggeredX tpWitnessX = true ∧
-      (execTp (execTpRun (tpWitnessX.take 3)) ⟨true, 10, 12⟩).2 = { q := true, et := 8 } ∧
-      Spec.tpX (tpWitnessX.take 4) = { q := false, et := 0 } := by
-  decide
-
-/-- **The candidate fix restores the full statement.**  With the rising edge accepted only while no pulse
-is running (`if rising && !self.active` in `Tp::step` — `tpStepFixed`, not the code as it is) the block
-is the IEC non-retriggerable pulse on every trace and prefix, without any guard; and on the recorded
-witness it gives the IEC answer. -/
-theorem c04_tp_fixed_trace (tr : List TCall) (c : TCall) :
-    (tpStepFixed (tpRunFixed tr) c).2 = Spec.tp (tr ++ [c]) ∧
-      outputs tpStepFixed {} tpWitness = (prefixes tpWitness).map Spec.tp := by
-  refine ⟨?_, by decide⟩
-  have h := (tpStepFixed_spec (tpRunFixed tr) tr.reverse c (tpRunFixed_inv tr)).2
-  simpa [Spec.tp] using h
-
-/-- The same for the runtime route over the patched step. -/
-theorem c04_tp_fixed_exec_trace (tr : List XCall) (c : XCall) :
-    (execTpFixed (execTpRunFixed tr) c).2 = Spec.tpX (tr ++ [c]) := by
-  have h := (execTpFixed_spec (execTpRunFixed tr) tr.reverse c (execTpRunFixed_inv tr)).2
+  have h := (execTp_spec (execTpRun tr) tr.reverse c (execTpRun_inv tr)).2
   simpa [Spec.tpX] using h
 
 /-- The specification is non-retriggerable: while a pulse runs, the next output does not depend on IN. -/
@@ -160,6 +122,19 @@ theorem c04_tp_spec_ignores_in (h : List TCall) (c : TCall) (b : Bool)
   cases hp : Spec.tpRunning h with
   | none => simp [hp] at hr
   | some a => simp [Spec.tpRunning, hp]
+
+/-- **Regression witness of the repaired finding C04-tp-retrigger** (PT = 10; IN rises at call 1, falls at
+call 2 and rises again at call 3, inside the pulse).  The trace lies in the retrigger region, and the
+code — struct and runtime route — answers it like IEC: the second rising edge is ignored, the pulse ends
+at call 4 after 12 ≥ PT.  (Before commit b46c61d `Tp::step` restarted ET at call 3 and answered
+`Q = TRUE, ET = 4, 8` at calls 3 and 4; the harness replays this trace on the real code on every run.) -/
+theorem c04_tp_witness :
+    Spec.retriggeredT tpWitness = true ∧ Spec.retriggeredX tpWitnessX = true ∧
+      outputs tpStep {} tpWitness =
+        [{ q := true, et := 0 }, { q := true, et := 4 }, { q := true, et := 8 }, { q := false, et := 0 },
+         { q := false, et := 0 }, { q := false, et := 0 }] ∧
+      outputs execTp {} tpWitnessX = outputs tpStep {} tpWitness := by
+  decide
 
 /-! ## ET ≤ PT, 0 ≤ ET, ET never decreases while timing (arbitrary PT) -/
 
@@ -177,14 +152,16 @@ theorem c04_et_le_pt (c : TCall) :
   · intro s
     simp only [tofStep]
     split <;> omega
-  · intro s
+  · intro s0
+    rw [tpStep_eq]
+    generalize ({ s0 with prevIn := s0.prevIn || s0.active } : TpS) = s
     by_cases ha : ((!s.prevIn && c.inp) || s.active) = true
-    · rw [tpStep_run s c ha]
+    · rw [tpStepRetrig_run s c ha]
       by_cases hge : (if (!s.prevIn && c.inp) = true then 0 else s.et) + c.dt ≥ normPt c.pt
       · simp only [hge, if_true]; exact hp
       · simp only [hge, if_false]; omega
     · have ha' : ((!s.prevIn && c.inp) || s.active) = false := by simpa using ha
-      rw [tpStep_idle s c ha']
+      rw [tpStepRetrig_idle s c ha']
       exact hp
 
 /-- **0 ≤ ET** (and the accumulator stays non-negative) when deltas are non-negative. -/
@@ -225,24 +202,13 @@ theorem c04_tof_et_monotone (s : TofS) (c1 c2 : TCall)
     rw [tofStep_prevIn]; exact tofStep_timing_in s c1 ht
   exact tof_mono_core _ c2 ht hp h2 hd hpt
 
-/-- **TP: ET never decreases while timing — partial**: while the pulse runs over two consecutive calls
-and the second call is not a rising edge of IN. -/
-theorem c04_tp_et_monotone_partial (s : TpS) (c1 c2 : TCall)
+/-- **TP: ET never decreases while timing** (the pulse runs over two consecutive calls; whatever IN does). -/
+theorem c04_tp_et_monotone (s : TpS) (c1 c2 : TCall)
     (ha1 : (tpStep s c1).1.active = true) (ha2 : (tpStep (tpStep s c1).1 c2).1.active = true)
-    (hnr : ¬ (c2.inp = true ∧ c1.inp = false)) (hd : 0 ≤ c2.dt) :
+    (hd : 0 ≤ c2.dt) :
     (tpStep s c1).2.et ≤ (tpStep (tpStep s c1).1 c2).2.et := by
   rw [tpStep_active_et s c1 ha1]
-  refine tp_mono_core _ c2 ha1 ?_ hd ha2
-  rw [tpStep_prevIn]
-  cases h1 : c1.inp <;> cases h2 : c2.inp <;> simp_all
-
-/-- On a rising edge inside the pulse the code's ET *does* decrease while Q stays TRUE
-(PT = 10: ET = 4, then IN rises again after 1 ns: ET = 1). -/
-theorem c04_tp_et_decreases_counterexample :
-    let s := tpRun [⟨true, 10, 0⟩]
-    (tpStep s ⟨false, 10, 4⟩).2 = { q := true, et := 4 } ∧
-      (tpStep (tpStep s ⟨false, 10, 4⟩).1 ⟨true, 10, 1⟩).2 = { q := true, et := 1 } := by
-  decide
+  exact tp_mono_core _ c2 ha1 hd ha2
 
 /-! ## No `i64` overflow -/
 
@@ -456,8 +422,7 @@ example :
     Spec.steadyX tr = true ∧ Spec.tonX tr = { q := true, et := 10 } ∧
       Spec.tonX (tr.take 2) = { q := false, et := 4 } := by decide
 
-/-- `c04_tp_trace_partial`: a trace without retrigger in which IN toggles after the pulse and a second
-pulse is accepted. -/
+/-- `c04_tp_trace`: IN toggles after the pulse and a second pulse is accepted. -/
 example :
     let tr : List TCall := [⟨true, 10, 0⟩, ⟨true, 10, 6⟩, ⟨false, 10, 4⟩, ⟨true, 10, 1⟩]
     Spec.retriggeredT tr = false ∧ (prefixes tr).map Spec.tp =
@@ -502,8 +467,7 @@ example :
       (tonStep (tonStep {} ⟨true, 10, 4⟩).1 ⟨true, 10, 5⟩).2.et = 9 ∧
       (execTon (execTon {} ⟨true, 10, 0⟩).1 ⟨true, 10, 4⟩).2.et = 4 := by decide
 
-/-- `c04_tp_et_monotone_partial`, `c04_tp_spec_ignores_in`: a pulse that runs over two consecutive calls
-without a new rising edge. -/
+/-- `c04_tp_et_monotone`, `c04_tp_spec_ignores_in`: a pulse that runs over two consecutive calls. -/
 example :
     let s := tpRun [⟨true, 10, 0⟩]
     (tpStep s ⟨true, 10, 3⟩).1.active = true ∧ (tpStep (tpStep s ⟨true, 10, 3⟩).1 ⟨false, 10, 3⟩).1.active = true ∧
